@@ -31,6 +31,7 @@ typedef struct {
 	rsig sent_cal; int have_cal; int envelope_ok; uint64_t sent_id;
 } server_t;
 static server_t S;
+static int g_own_ctx;   /* 0: plain calls; 1 / 2: the WithPolicy forms with a fresh / a used verification context */
 
 static void handler(const unsigned char *req, size_t n, vbuf *resp, void *user) {
 	rp_env e;
@@ -232,7 +233,20 @@ static void one_case(int iface, int transport, int version, int src_tail, int nc
 		if (pubrec == 3) pr_time += 1;   /* then the request asks for pr_time */
 		pr = make_pubrec(ctx, pr_time, prh, prl);
 	}
-	if (iface == 0) {
+	if (iface <= 1 && g_own_ctx) {
+		/* the ...WithPolicy forms with the caller's own verification context: a fresh one (1), or the one the application has just
+		 * verified the source signature with and that still names it (2); the result is judged all the same */
+		KSI_VerificationContext vc;
+		if (KSI_VerificationContext_init(&vc, ctx) != KSI_OK) vf_harness_error("verification context");
+		if (g_own_ctx == 2) vc.signature = sig;
+		if (iface == 0) {
+			if (target != 0) KSI_Integer_new(ctx, target_time, &to);
+			res = KSI_Signature_extendToWithPolicy(sig, ctx, to, KSI_VERIFICATION_POLICY_INTERNAL, &vc, &ext);
+		} else res = KSI_Signature_extendWithPolicy(sig, ctx, pr, KSI_VERIFICATION_POLICY_INTERNAL, &vc, &ext);
+		vf_count("impl_calls", 1);
+		vc.signature = NULL;
+		KSI_VerificationContext_clean(&vc);
+	} else if (iface == 0) {
 		if (target != 0) KSI_Integer_new(ctx, target_time, &to);
 		res = KSI_Signature_extendTo(sig, ctx, to, &ext);
 		vf_count("impl_calls", 1);
@@ -476,7 +490,7 @@ static void part_replace(void) {
 
 static void run(void) {
 	int iface, tr, ver, tail, nch, target, pubrec, reply, sub;
-	for (iface = 0; iface < 4; iface++) for (tr = 0; tr < 2; tr++) for (ver = 2; ver >= 1; ver--)
+	for (iface = 0; iface < (g_own_ctx ? 2 : 4); iface++) for (tr = 0; tr < 2; tr++) for (ver = 2; ver >= 1; ver--)
 	for (tail = 0; tail <= 3; tail++) for (nch = 1; nch <= 2; nch++) for (target = 0; target < 4; target++) for (pubrec = 0; pubrec < 4; pubrec++)
 	for (reply = 0; reply < R_NREPLY; reply++) {
 		int nsub = (reply == R_STATUS || reply == R_ERROR_PDU) ? NSTATUS : reply == R_RIGHT_ALTERED ? 3 : reply == R_ERROR_WITH_RESPONSE ? 2 : 1;
@@ -485,6 +499,7 @@ static void run(void) {
 		if (iface != 0 && pubrec == 0 && target != 0) continue;
 		if (nch == 2 && !(tail == 1 && VF_THOROUGH)) continue;
 		if (iface == 3 && (ver == 1 || (!VF_THOROUGH && tr == 1))) continue;    /* HA service: PDU v2 (quick: TCP endpoints) */
+		if (g_own_ctx && (tr != 0 || ver != 2 || nch != 1)) continue;
 		if (ver == 1 && !(reply <= R_WRONG_ID || reply == R_OTHER_VERSION || reply == R_RIGHT_ALTERED || reply == R_NOSTATUS_WRONG_ID)) continue;
 		if (!VF_THOROUGH) {
 			if (tr == 1 && reply > R_WRONG_ID && reply != R_RIGHT_ALTERED) continue;
@@ -492,7 +507,8 @@ static void run(void) {
 		}
 		for (sub = 0; sub < nsub; sub++) {
 			if (!VF_THOROUGH && sub > 1 && !((reply == R_STATUS || reply == R_ERROR_PDU) && sub >= NSTATUS - 4)) continue;   /* quick: two ordinary codes and the four wider than 32 bits */
-			if (!vf_case_begin("ext:if%d:tr%d:v%d:tail%d:n%d:target%d:pr%d:%s:%d", iface, tr, ver, tail, nch, target, pubrec, RNAME[reply], sub)) continue;
+			if (g_own_ctx && sub > 0) continue;
+			if (!vf_case_begin("ext%s:if%d:tr%d:v%d:tail%d:n%d:target%d:pr%d:%s:%d", g_own_ctx == 0 ? "" : g_own_ctx == 1 ? "-ctxfresh" : "-ctxused", iface, tr, ver, tail, nch, target, pubrec, RNAME[reply], sub)) continue;
 			one_case(iface, tr, ver, tail, nch, target, pubrec, reply, sub);
 			vf_case_end(1);
 		}
@@ -502,6 +518,8 @@ static void run(void) {
 static void run_all(void) {
 	int iface, tr, tail, target, pubrec;
 	run();
+	for (g_own_ctx = 1; g_own_ctx <= 2; g_own_ctx++) run();
+	g_own_ctx = 0;
 	/* sources whose record comes first */
 	g_rec_first = 1;
 	for (iface = 0; iface < 3; iface++) for (tr = 0; tr < 2; tr++) for (tail = 2; tail <= 3; tail++) for (target = 0; target < 3; target += 2) for (pubrec = 0; pubrec < 2; pubrec++) {
